@@ -297,6 +297,42 @@ def project(v, key):
     raise Refuse("no record to project")
 
 
+def apply_fields(v, fitems):
+    """the field items of one slice, in order: a single name projects that field; a LIST of names keeps those fields
+    and applies the remaining field items inside each of them (x[["a", "b"], "f"] = zip(a: x.a.f, b: x.b.f))"""
+    if not fitems:
+        return v
+    head, tail = fitems[0], fitems[1:]
+    if head[0] == "fld":
+        return apply_fields(project(v, head[1]), tail)
+    return _select(v, head[1], tail)
+
+
+def _select(v, keys, tail):
+    if v is None:
+        return None
+    if isinstance(v, dict):
+        return {k: apply_fields(v[k], tail) for k in keys}
+    if isinstance(v, list):
+        return [_select(e, keys, tail) for e in v]
+    raise Refuse("no record to project")
+
+
+def _fields_type(T, fitems):
+    if not fitems:
+        return T
+    head, tail = fitems[0], fitems[1:]
+    if head[0] == "fld":
+        return _fields_type(_project_type(T, head[1]), tail)
+    if T[0] in ("list", "regular"):
+        return (T[0], _fields_type(T[1], fitems)) + tuple(T[2:])
+    if T[0] == "option":
+        return ("option", _fields_type(T[1], fitems))
+    if T[0] == "record" and T[1] is not None:
+        return ("record", list(head[1]), [_fields_type(T[2][T[1].index(k)], tail) for k in head[1]])
+    raise Refuse("no record to project")
+
+
 def _wrapidx(i, n):
     j = i + n if i < 0 else i
     if not (0 <= j < n):
@@ -331,8 +367,11 @@ def _R(v, T, items, adv):
         return v
     head, tail = items[0], items[1:]
     k = head[0]
-    if k == "fld":
-        return _R(project(v, head[1]), _project_type(T, head[1]), tail, adv)
+    if k in ("fld", "flds"):
+        # every field item of the slice is applied first (inside the records), the positional items afterwards
+        fitems = [it for it in items if it[0] in ("fld", "flds")]
+        rest = [it for it in tail if it[0] not in ("fld", "flds")]
+        return _R(apply_fields(v, fitems), _fields_type(T, fitems), rest, adv)
     if k == "new":
         return [_R(v, T, tail, adv)]
     if k == "ell":
@@ -393,16 +432,17 @@ def regular_out_of_range(T, items):
     no list is selected, so the library may raise although the level-by-level selection is empty"""
     T = ("list", T)
     items = list(items)
+    fitems = [it for it in items if it[0] in ("fld", "flds")]
+    if fitems:
+        try:
+            T = _fields_type(T, fitems)
+        except (Refuse, ValueError):
+            return False
+        items = [it for it in items if it[0] not in ("fld", "flds")]
     while items:
         head, items = items[0], items[1:]
         k = head[0]
         if k in ("new",):
-            continue
-        if k == "fld":
-            try:
-                T = _project_type(T, head[1])
-            except Refuse:
-                return False
             continue
         if k == "ell":
             need = _levels(T) - sum(1 for it in items if _consumes(it) or it[0] == "miss")
